@@ -433,7 +433,7 @@ class proxy( object ):
             except ValueError:
                 add,typ		= req
             if isinstance( add, type_str_base ):
-                if isinstance( typ, (type_str_base, type) ):
+                if typ is None or isinstance( typ, (type_str_base, type) ):
                     return True
                 if is_listlike( typ ):
                     if all( isinstance( t, (type_str_base, type) ) for t in typ ):
@@ -577,7 +577,7 @@ class proxy( object ):
                     # The attribute description is either a plain Tag, an (address, type), or an
                     # (address, type, description)
                     if is_listlike( a ):
-                        att,typ,uni = a if len( a ) == 3 else a+(None,)
+                        att,typ,uni = a if len( a ) == 3 else tuple( a )+(None,)
                     else:
                         att,typ,uni = a,None,None
                     # No conversion of data type if None; use a Read Tag [Fragmented]; works only
